@@ -90,10 +90,53 @@ class Lin:
                 for a in atom[3]:
                     if not any(a is x for x in out):
                         out.append(a)
+            elif atom[0] == "form":
+                for a in FORMS[atom[1]].attrs["_args"]:
+                    if not any(a is x for x in out):
+                        out.append(a)
         return tuple(sorted(out, key=lambda a: (a.attrs["_number"], -1 if a.attrs["_part"] is None else a.attrs["_part"])))
 
     def __repr__(self):
         return " + ".join(f"{v}*{k[:3] if k[0] == 'part' else k}" for k, v in self.terms.items()) or "0"
+
+
+FORMS: dict = {}
+
+
+class FormRec:
+    """form stand-in (host object): knows its arguments and blocks; used in arithmetic it is the formal term form(name)"""
+
+    __lift_host__ = True
+
+    def __init__(self, name, args, blocks2=None, blocks1=None):
+        self.attrs = dict(_name=name, _args=tuple(args), _blocks2=blocks2, _blocks1=blocks1)
+        FORMS[name] = self
+
+    def arguments(self):
+        return self.attrs["_args"]
+
+    def empty(self):
+        return False
+
+    def _lin(self):
+        return Lin({("form", self.attrs["_name"]): 1})
+
+    def __neg__(self):
+        return -self._lin()
+
+    def __add__(self, o):
+        return self._lin() + (o._lin() if isinstance(o, FormRec) else o)
+
+    __radd__ = __add__
+
+    def __sub__(self, o):
+        return self._lin() - (o._lin() if isinstance(o, FormRec) else o)
+
+    def __rmul__(self, k):
+        return k * self._lin()
+
+    def __repr__(self):
+        return f"form({self.attrs['_name']})"
 
 
 def arg_key(a):
@@ -119,10 +162,7 @@ def run_wiring(ctx, rep):
         return o
 
     def form(name, args, blocks2=None, blocks1=None):
-        o = Obj("form:" + name, _name=name, _args=tuple(args), _blocks2=blocks2, _blocks1=blocks1)
-        o.attrs["__class__"] = None
-        o.attrs.update(arguments=lambda: tuple(args), empty=lambda: False)
-        return o
+        return FormRec(name, args, blocks2, blocks1)
 
     def make_ip():
         ip = Interp(prog)
@@ -131,7 +171,7 @@ def run_wiring(ctx, rep):
         ip.overrides["compute_form_with_arity"] = lambda F, arity, arguments=None: Lin({("part", F.attrs["_name"], arity, tuple(a for a in F.attrs["_args"] if a.attrs["_number"] < arity)): 1}) if len(F.attrs["_args"]) >= arity else Lin()
         ip.overrides["replace"] = lambda F, mp: Lin({("replace", F.attrs["_name"], tuple(sorted((arg_key(k), arg_key(v)) for k, v in mp.items()))): 1})
         ip.overrides["map_integrands"] = lambda fn, X: Lin({("conj" if getattr(fn, "name", None) == "Conj" else "mapped", k): v for k, v in X.terms.items()})
-        ip.overrides["action"] = lambda a, c: Lin({("action", a.attrs["_name"] if isinstance(a, Obj) else tuple(a.terms.items()), arg_key(c)): 1})
+        ip.overrides["action"] = lambda a, c: Lin({("action", a.attrs["_name"] if isinstance(a, FormRec) else tuple(a.terms.items()), arg_key(c)): 1})
         ip.overrides["extract_blocks"] = lambda F, arity=2, **k: F.attrs["_blocks2"] if arity == 2 else F.attrs["_blocks1"]
         ip.overrides["logger"] = Obj("logger", debug=lambda *a, **k: None, warning=lambda *a, **k: None)
 
